@@ -111,6 +111,20 @@ def check_exact(ctx, regs: List[Registration]) -> None:
     operations replace (the solver objective): when the objective is replaced later in the block and restored by its
     own undo, the entry acts on an object that is no longer installed."""
     for r in regs:
+        # ---- closures defined in a loop bind the loop's variables late
+        if r.closure is not None or isinstance(r.callable_expr, ast.Lambda):
+            body = r.closure.node if r.closure is not None else r.callable_expr
+            loop = _enclosing_for(body, r.fn)
+            if loop is not None:
+                assigned = {n.id for n in ast.walk(loop) if isinstance(n, ast.Name) and isinstance(n.ctx, ast.Store) and not any(a is body for a in ancestors(n))}
+                params = {a.arg for a in body.args.args + body.args.kwonlyargs} if hasattr(body, "args") else set()
+                own = {n.id for n in ast.walk(body) if isinstance(n, ast.Name) and isinstance(n.ctx, ast.Store)}
+                free = {n.id for n in ast.walk(body) if isinstance(n, ast.Name) and isinstance(n.ctx, ast.Load)} - params - own
+                late = sorted(free & assigned)
+                if late:
+                    ctx.bad("C03.exact", r.fn, enclosing_stmt(r.node), f"the undo entry is a closure defined inside a loop and reads the loop's variables {late} when it runs: every entry then sees the values of the last iteration, so only the last object is restored (bind them with functools.partial or default arguments)")
+                else:
+                    ctx.ok("C03.exact", r.fn, enclosing_stmt(r.node), "closure in a loop does not read loop variables")
         if r.target is None:
             continue
         key = (r.fn.qualname.replace("cobra.", "", 1), norm(enclosing_stmt(r.node)))
